@@ -506,89 +506,6 @@ theorem rt_cls_custom {c : Nat} {dc : Bool} {fs : List (String × PTy)} {c' : Na
     simp only [List.nil_append] at this
     simp [this]
 
-/-! ### the round trip, by recursion on the type -/
-
-mutual
-theorem rt_frag (hw : w.WF = true) (he : env.OK) : ∀ (t : PTy) (x : Obj),
-    sup w cf t = true → frag cf t = true → confP w t x = true → RT w env cf t x
-  | .int, _, _, _, hc => rt_int hc
-  | .float, _, _, _, hc => rt_float hc
-  | .str, _, _, _, hc => rt_str hc
-  | .bytes, _, _, _, hc => rt_bytes he hc
-  | .bool, _, _, _, hc => rt_bool hc
-  | .datetime, _, _, _, hc => rt_datetime he hc
-  | .date, _, _, _, hc => rt_date he hc
-  | .enum _, _, _, _, hc => rt_enum hw hc
-  | .lit _, _, _, _, hc => rt_lit hc
-  | .punion _, _, hs, _, hc => rt_punion hs hc
-  | .coll k t, x, hs, hf, hc => by
-      cases x with
-      | coll ck xs =>
-        have hc2 := hc
-        simp only [confP, Bool.and_eq_true, List.all_eq_true] at hc2
-        simp only [frag, Bool.and_eq_true] at hf
-        have hs2 := hs
-        simp only [sup, Bool.and_eq_true] at hs2
-        exact rt_coll k t ck xs hs hc hf.1 (fun y hy => rt_frag hw he t y hs2.1 hf.2 (hc2.1.2 y hy))
-      | _ => simp [confP] at hc
-  | .tupleHet ts, x, hs, hf, hc => by
-      cases x with
-      | coll ck xs =>
-        cases ck <;> simp [confP] at hc
-        simp only [sup] at hs
-        simp only [frag] at hf
-        obtain ⟨h1, h2⟩ := rt_fragT hw he ts xs hs hf hc
-        refine ⟨?_, ?_⟩
-        · simp only [unP, enc, Bool.and_eq_true]
-          exact ⟨by cases cf.fmt <;> trivial, h1⟩
-        · have hn : norm w env cf.fmt (unP w env cf (.tupleHet ts) (.coll .tuple xs))
-              = .coll .list (normL w env cf.fmt (unT w env cf ts xs)) := by
-            cases hfm : cf.fmt <;> simp [unP, norm]
-          rw [hn]
-          simp [stP, iterItems, h2]
-      | _ => simp [confP] at hc
-  | .opt t, x, hs, hf, hc => by
-      have hs2 := hs
-      simp only [sup, Bool.and_eq_true] at hs2
-      simp only [frag] at hf
-      exact rt_opt hw hs hc (fun hc' => rt_frag hw he t x hs2.1 hf hc')
-  | .map _ _ _, _, _, hf, _ => by simp [frag] at hf
-  | .cls c dc fs, x, hs, hf, hc => by
-      cases x with
-      | inst c' vs =>
-        have hs2 := hs
-        simp only [sup, Bool.and_eq_true] at hs2
-        simp only [frag, Bool.and_eq_true] at hf
-        refine rt_cls_custom hs hc ?_ (fun n t y hm hc' => rt_fragF hw he fs hs2.1 hf.2 n t y hm hc')
-        have h1 := hf.1
-        cases hfm : cf.fmt <;> simp [hfm] at h1 ⊢
-        rcases h1 with h | h <;> simp [h]
-      | _ => simp [confP] at hc
-  | .td _, _, _, hf, _ => by simp [frag] at hf
-theorem rt_fragT (hw : w.WF = true) (he : env.OK) : ∀ (ts : List PTy) (xs : List Obj),
-    supT w cf ts = true → fragT cf ts = true → confT w ts xs = true →
-    encL w cf.fmt (unT w env cf ts xs) = true ∧ stT w env cf ts (normL w env cf.fmt (unT w env cf ts xs)) = some xs
-  | [], [], _, _, _ => by simp [unT, encL, normL, stT]
-  | [], _ :: _, _, _, hc => by simp [confT] at hc
-  | _ :: _, [], _, _, hc => by simp [confT] at hc
-  | t :: ts, x :: xs, hs, hf, hc => by
-      simp only [supT, Bool.and_eq_true] at hs
-      simp only [fragT, Bool.and_eq_true] at hf
-      simp only [confT, Bool.and_eq_true] at hc
-      obtain ⟨h1, h2⟩ := rt_frag hw he t x hs.1 hf.1 hc.1
-      obtain ⟨h3, h4⟩ := rt_fragT hw he ts xs hs.2 hf.2 hc.2
-      simp [unT, encL, normL, stT, h1, h2, h3, h4]
-theorem rt_fragF (hw : w.WF = true) (he : env.OK) : ∀ (fs : List (String × PTy)),
-    supF w cf fs = true → fragF cf fs = true →
-    ∀ (n : String) (t : PTy) (x : Obj), (n, t) ∈ fs → confP w t x = true → RT w env cf t x
-  | [], _, _, _, _, _, hm, _ => by simp at hm
-  | (n0, t0) :: fs, hs, hf, n, t, x, hm, hc => by
-      simp only [supF, Bool.and_eq_true] at hs
-      simp only [fragF, Bool.and_eq_true] at hf
-      simp only [List.mem_cons, Prod.mk.injEq] at hm
-      rcases hm with ⟨rfl, rfl⟩ | hm
-      · exact rt_frag hw he t x hs.1 hf.1 hc
-      · exact rt_fragF hw he fs hs.2 hf.2 n t x hm hc
-end
+/-! The recursion on the type that puts these cases together is `rt_all` in `Preconf/Lemmas7.lean`. -/
 
 end CattrsModel.Preconf
